@@ -282,6 +282,8 @@ def check_json(doc_bytes, s_out, o_out, nargs):
         keys = ["julian_day_number", "year", "month", "day", "ordinal", "display", "ordinal_display"]
         if reforming:
             keys.append("old_style")
+        if not isinstance(d, dict):
+            return "dates element is not an object: %r" % (d,)
         if list(d.keys()) != keys:
             return "date keys %r" % list(d.keys())
         ym = re.match(r"^(-?\d+)-(\d\d)-(\d\d)$", disp)
@@ -401,7 +403,10 @@ def main():
         if npos == 0 and (real[s][3] != jdn or real[o][3] != jdn):
             continue
         json_checked += 1
-        e = check_json(out, real[s][1], real[o][1], npos)
+        try:
+            e = check_json(out, real[s][1], real[o][1], npos)
+        except Exception as ex:
+            e = 'JSON document has an unexpected structure (%s: %s)' % (type(ex).__name__, ex)
         if e:
             disagreements.append((all_argv[a], ["JSON check: " + e]))
 
